@@ -215,6 +215,70 @@ def emTableOk : Bool :=
         | none => false))
   && Generated.rawEmDims == Generated.rawEm.map (fun (_, d, _, _, _, _) => d)
 
+/-! ### numbers on the electromagnetic route (atomic units: every scale is an exact table cell or
+    a product with a prefix, and integer powers of base units — the stand-in power is exact there) -/
+
+def absQ (q : Rat) : Rat := if q < 0 then -q else q
+
+/-- the factor of every EM row times the factor of its partner row is 1 within 2⁻⁵⁰ (the two
+    are independent floating-point literals in `em_conversions`) -/
+def emFactorsInverseOk : Bool :=
+  c10Em.all fun r =>
+    c10Em.any fun r' => r'.name == r.partnerSym "" && r'.dim == r.toDim
+      && decide (absQ (r.factor * r'.factor - 1) ≤ 1 / 2 ^ 50)
+
+/-- the prefixes that are their own parse (`u`, `µ` are re-spelled `μ` by the parser) -/
+def canonicalPrefixes : List String :=
+  allPrefixKeys.filter fun p => c10Em.all fun r => r.partnerSym p == p ++ r.partnerSym ""
+
+/-- the crossing branch of `_em_conversion` for the unit `p ++ name`: the numeric factor is exactly
+    the table's factor (no offset), the target is `p ++ partner`, and the prefix multiplies both
+    units by the same number — so `x [p·unit] = x·factor [p·partner]` is the same quantity as
+    `x·prefix [unit] = x·prefix·factor [partner]` -/
+def emCrossRowOk (r : EmRow Rat) (p : String) : Bool :=
+  match mkUnit c10Pre c10Lut (UExpr.sym (r.partnerSym p)) with
+  | .error _ => false
+  | .ok emUnit =>
+    (match emConversion c10Pre c10Lut ⟨none, emUnit, r.factor⟩ with
+     | .ok (to, (f, o)) => f == r.factor && o.isNone && exprEq to.expr emUnit.expr
+     | .error _ => false)
+    && (match resolve c10Pre c10Lut (p ++ r.name), resolve c10Pre c10Lut r.name,
+          resolve c10Pre c10Lut (r.partnerSym p), resolve c10Pre c10Lut (r.partnerSym "") with
+        | some a, some a0, some b, some b0 => a.scale * b0.scale == a0.scale * b.scale && a.scale != 0 && b.scale != 0
+        | _, _, _, _ => false)
+
+def emCrossOk (ps : List String) : Bool := c10Em.all fun r => ps.all fun p => emCrossRowOk r p
+
+/-- the whole route on a built-in system for an EM-table unit `p ++ name` and reading 1: where the dimension
+    is kept the SI magnitude is kept (`y · scale(v) = scale(u)`), where it crosses the number is
+    the table's factor; and whenever the resulting unit is a fixed point of `in_base`, so is the number -/
+def emRouteNumbersOk (r : Generated.RawSystem) (p name : String) : Bool :=
+  let S := sysOfRaw Rat r
+  match mkUnit c10Pre c10Lut (UExpr.sym (p ++ name)) with
+  | .error _ => false
+  | .ok u =>
+    match inBase c10Pre c10Lut c10Em S u 1 with
+    | .error .UnitsNotReducible => true
+    | .error _ => false
+    | .ok (y, v) =>
+      (if v.dim == u.dim then y * v.scale == u.scale
+       else match c10Em.find? name u.dim with
+         | some row => y == row.factor
+         | none => false)
+      && (match inBase c10Pre c10Lut c10Em S v y with
+          | .ok (y', w) => !(exprEq w.expr v.expr) || y' == y
+          | .error _ => true)
+
+/-- the canonical prefixes in four chunks (kernel obligations stay small) -/
+def canonicalPrefixChunk (i : Nat) : List String := (canonicalPrefixes.drop (5 * i)).take (if i ≥ 3 then canonicalPrefixes.length else 5)
+
+def emNames : List String := c10Em.map (·.name)
+
+def emRouteNumbersSys (sys : String) (ps : List String) : Bool :=
+  match rawSystem? sys with
+  | none => false
+  | some r => emNames.all fun n => ps.all fun p => emRouteNumbersOk r p n
+
 /-- no key of the regenerated unit table reads as SI prefix + prefixable unit -/
 def keysUnsplitOk : Bool := c10Lut.all fun (k, _) => splitPrefix c10Pre c10Lut k == ("", k)
 
